@@ -29,7 +29,7 @@ import (
 
 type sys struct {
 	name  string
-	tree  bool // start from a non-initial state: R/a/{a (file, second name R/b)}
+	tree  bool // start from a non-initial state: R/a/{a (file, second name R/ab)}
 	R     string
 	k     *osfs.OsFS
 	v     avfs.VFS
@@ -97,7 +97,7 @@ func (s *sys) Reset() error {
 		for _, c := range []fsx.Call{
 			{Op: "Mkdir", A: s.R + "/a", Perm: 0o755},
 			{Op: "WriteFile", A: s.R + "/a/a", Data: "hello", Perm: 0o644},
-			{Op: "Link", A: s.R + "/a/a", B: s.R + "/b"},
+			{Op: "Link", A: s.R + "/a/a", B: s.R + "/ab"},
 		} {
 			if r := fsx.Do(s.k, c); r.Kind != "ok" {
 				return fmt.Errorf("kernel setup %s: %s", c, r)
@@ -505,9 +505,11 @@ func valueDiff(op, k, v string) string {
 }
 
 func buildOps(fsName, R, tier string) []fsx.Call {
-	names := []string{"a", "b"}
+	// one name is a strict prefix of the other: path code that compares string
+	// prefixes must not take "R/a" for an ancestor of "R/ab"
+	names := []string{"a", "ab"}
 	if tier == "thorough" {
-		names = []string{"a", "b", "c"}
+		names = []string{"a", "ab", "c"}
 	}
 
 	var paths []string
@@ -524,7 +526,7 @@ func buildOps(fsName, R, tier string) []fsx.Call {
 
 	withRoot := append([]string{R}, paths...)
 	// relative spellings (cwd is R unless a Chdir op moved it)
-	rel := []string{"a", "a/b"}
+	rel := []string{"a", "a/ab"}
 
 	flags := []int{
 		os.O_RDONLY, os.O_WRONLY, os.O_RDWR, os.O_RDWR | os.O_CREATE, os.O_WRONLY | os.O_CREATE | os.O_EXCL,
@@ -616,10 +618,10 @@ func buildOps(fsName, R, tier string) []fsx.Call {
 		}
 	}
 
-	ops = append(ops, fsx.Call{Op: "Rename", A: "a", B: "b"}, fsx.Call{Op: "Link", A: "a", B: "b"})
+	ops = append(ops, fsx.Call{Op: "Rename", A: "a", B: "ab"}, fsx.Call{Op: "Link", A: "a", B: "ab"})
 
 	if fsName == "MemFS" {
-		targets := []string{"a", "b", "a/a", "../a", ".", "nope", R + "/a", R + "/nope"}
+		targets := []string{"a", "ab", "a/a", "../a", ".", "nope", R + "/a", R + "/nope"}
 		for _, t := range targets {
 			for _, q := range paths {
 				ops = append(ops, fsx.Call{Op: "Symlink", A: t, B: q})
